@@ -239,9 +239,31 @@ def shim_range(*a):
     return out
 
 
+def _unshim_type(t):
+    from . import symstr
+
+    m = {shim_float: builtins.float, shim_int: builtins.int, shim_str: builtins.str, symstr.shim_list: builtins.list, symstr.shim_tuple: builtins.tuple}
+    if isinstance(t, tuple):
+        return tuple(_unshim_type(u) for u in t)
+    try:
+        return m.get(t, t)
+    except TypeError:
+        return t
+
+
 def shim_isinstance(x, t):
     # proxies answer for the types they stand for
-    from . import symdt
+    from . import symdt, symstr
+
+    t = _unshim_type(t)
+    if isinstance(x, SymNum):
+        ts = t if isinstance(t, tuple) else (t,)
+        if builtins.float in ts and isinstance(x, SymReal):
+            return True
+        if builtins.int in ts and isinstance(x, SymInt):
+            return True
+    if isinstance(x, symstr.SymStr) and (t is builtins.str or (isinstance(t, tuple) and builtins.str in t)):
+        return True
 
     r = symdt.sym_isinstance(x, t)
     if r is not None:
